@@ -51,6 +51,15 @@ def run(ctx):
         b = json.load(open(out))
         cov["bundled"] = b["coverage"]
         viol += b["violations"]
+    if ctx["tier"] == "thorough":
+        # kernel-checked translation validation on the shipped texts (engine on the translated meta-grammar + visitor
+        # model vs spec reader, evaluated by the kernel): ~17 min
+        rc, so, se = C.sh("timeout 5400 coqc -Q . ABNF thorough/C04_bundled.v", cwd=C.COQ, timeout=5500)
+        ok = rc == 0 and "Closed under the global context" in so
+        cov["bundled_texts_kernel_checked"] = {"file": "coq/thorough/C04_bundled.v", "discharged": ok, "classes": 26}
+        if not ok:
+            viol.append({"what": "kernel-checked obligation 'library route = spec route on the bundled texts' no longer holds: " + (so + se)[-300:],
+                         "identity": "c04-bundled-obligation", "replay_payload": {"property": "C04", "no_longer_checks": "coq/thorough/C04_bundled.v", "output": (so + se)[-1500:]}})
     cov["samples"] = cov["samples"][:4]
     cov["rule"] = ("random abstract syntax (1-4 rules; all repeat forms; %b/%d/%x values, series, ranges; %s/%i strings; groups, "
                    "options, prose, references to core rules in random case; =/) rendered with random layout (comments, "
